@@ -16,7 +16,17 @@ type runner func(r *hx.Result, rng *hx.Rng, tier string, outdir string)
 
 var props = map[string]runner{}
 
+// subcommands: re-executions of this binary as a child process (decoders that may crash or
+// spin, servers in their own process): qv <name> args...
+var subcommands = map[string]func(args []string){}
+
 func main() {
+	if len(os.Args) > 1 {
+		if f, ok := subcommands[os.Args[1]]; ok {
+			f(os.Args[2:])
+			return
+		}
+	}
 	seed := flag.Uint64("seed", 1, "seed")
 	tier := flag.String("tier", "quick", "quick|thorough")
 	out := flag.String("out", ".", "output directory")
